@@ -42,6 +42,8 @@ pub(crate) const WORDS: &[&str] = &[
     "a", "b", "ab", "A", "the", "cat", "eats", "fish", "ba", "x", "´x", "x´", "ﬁsh", "é", "e\u{301}", "中", "a.", "¨",
     // multi-code-point clusters that NFKC does not compose (grapheme index != code-point index)
     "👍🏽", "x\u{301}b", "🇩🇪a",
+    // one grapheme cluster of more than 255 bytes
+    gen::GIANT,
 ];
 
 pub(crate) const PLAIN_WORDS: &[&str] = &["a", "b", "ab", "the", "cat", "eats", "fish", "ba", "x", "A", "👍🏽", "x\u{301}b"];
